@@ -39,7 +39,8 @@ Definition prog_table_ok : bool :=
   forallb (fun cur => forallb (fun tgt =>
      match p_progress cur tgt with
      | inr (n, _) => pvalue n =? Z.max (pvalue cur) (pvalue tgt)
-     | inl _ => true
+     | inl ValueError => pvalue tgt <=? pvalue cur
+     | inl _ => false
      end) pstate_all) pstate_all
   && forallb (fun s => pnone_value <=? pvalue s) pstate_all.
 
@@ -54,6 +55,17 @@ Proof.
   apply andb_true_iff in T. destruct T as [T _]. rewrite forallb_forall in T.
   specialize (T cur (pstate_all_complete cur)). rewrite forallb_forall in T.
   specialize (T tgt (pstate_all_complete tgt)). rewrite H in T. apply Z.eqb_eq in T. exact T.
+Qed.
+
+(* it only ever raises ValueError, and only on a report that is not more advanced *)
+Lemma p_progress_err cur tgt e :
+  p_progress cur tgt = inl e -> e = ValueError /\ pvalue tgt <= pvalue cur.
+Proof.
+  intro H. pose proof prog_table_ok_true as T. unfold prog_table_ok in T.
+  apply andb_true_iff in T. destruct T as [T _]. rewrite forallb_forall in T.
+  specialize (T cur (pstate_all_complete cur)). rewrite forallb_forall in T.
+  specialize (T tgt (pstate_all_complete tgt)). rewrite H in T.
+  destruct e; try discriminate. apply Z.leb_le in T. split; [reflexivity|exact T].
 Qed.
 
 Lemma pnone_le s : pnone_value <= pvalue s.
@@ -143,11 +155,11 @@ Qed.
 (* ---------------- _update_pilot_states: monotone, absorbs every report ---------------- *)
 Lemma ups_loop_mono : forall ps pl upd pl' upd' e,
   ups_loop ps pl upd = (pl', upd', e) ->
-  MONOp pl pl' /\
-  (e = None -> forall pid tgt, In (pid, tgt) ps -> pvalue tgt <= pval (stq pid pl')).
+  MONOp pl pl' /\ e = None /\
+  (forall pid tgt, In (pid, tgt) ps -> pvalue tgt <= pval (stq pid pl')).
 Proof.
   induction ps as [|[pid tgt] r IH]; intros pl upd pl' upd' e H; cbn [ups_loop] in H.
-  - injection H as <- <- <-. split; [apply SPp_MONO, SPp_refl|]. intros _ ? ? [].
+  - injection H as <- <- <-. split; [apply SPp_MONO, SPp_refl|split; [reflexivity|]]. intros ? ? [].
   - set (pl1 := match aget pid pl with Some _ => pl | None => aset pid pil0 pl end) in H.
     assert (H1 : SPp pl pl1).
     { subst pl1. destruct (aget pid pl) eqn:Hg; [apply SPp_refl|].
@@ -157,28 +169,33 @@ Proof.
               (if pstate_opt_eqb (p_state (getp pid pl1)) (Some n) then ups_loop r pl1 upd
                else ups_loop r (aset pid (mkPil (p_role (getp pid pl1)) (Some n) (p_cores (getp pid pl1))
                                             (p_info (getp pid pl1))) pl1) (upd ++ [pid])) = (pl', upd', e) ->
-              MONOp pl pl' /\
-              (e = None -> forall pid0 tgt0, In (pid0, tgt0) ((pid, tgt) :: r) ->
+              MONOp pl pl' /\ e = None /\
+              (forall pid0 tgt0, In (pid0, tgt0) ((pid, tgt) :: r) ->
                            pvalue tgt0 <= pval (stq pid0 pl'))).
     { intros n Hn1 Hn2 HH.
       destruct (pstate_opt_eqb (p_state (getp pid pl1)) (Some n)) eqn:Eq.
-      - apply pstate_opt_eqb_some in Eq. destruct (IH _ _ _ _ _ HH) as [M A].
-        split; [exact (MONOp_trans _ _ _ (SPp_MONO _ _ H1) M)|].
-        intros He p0 t0 [Hin|Hin]; [|exact (A He _ _ Hin)].
+      - apply pstate_opt_eqb_some in Eq. destruct (IH _ _ _ _ _ HH) as [M [E A]].
+        split; [exact (MONOp_trans _ _ _ (SPp_MONO _ _ H1) M)|split; [exact E|]].
+        intros p0 t0 [Hin|Hin]; [|exact (A _ _ Hin)].
         injection Hin as <- <-. specialize (M pid). unfold stq in M at 1. rewrite Eq in M.
         cbn [pval] in M. lia.
-      - destruct (IH _ _ _ _ _ HH) as [M A].
+      - destruct (IH _ _ _ _ _ HH) as [M [E A]].
         set (pl2 := aset pid _ pl1) in *.
         assert (M12 : MONOp pl1 pl2).
         { intro q. unfold stq at 2. subst pl2. rewrite getp_aset.
           destruct (Z.eqb_spec pid q); [subst; cbn [p_state pval]; exact Hn1|]. unfold stq. lia. }
-        split; [exact (MONOp_trans _ _ _ (SPp_MONO _ _ H1) (MONOp_trans _ _ _ M12 M))|].
-        intros He p0 t0 [Hin|Hin]; [|exact (A He _ _ Hin)].
+        split; [exact (MONOp_trans _ _ _ (SPp_MONO _ _ H1) (MONOp_trans _ _ _ M12 M))|split; [exact E|]].
+        intros p0 t0 [Hin|Hin]; [|exact (A _ _ Hin)].
         injection Hin as <- <-. specialize (M pid). unfold stq in M at 1. subst pl2.
         rewrite getp_aset, Z.eqb_refl in M. cbn [p_state pval] in M. lia. }
     destruct (p_state (getp pid pl1)) as [cur|] eqn:Es.
     + destruct (p_progress cur tgt) as [err|[n l]] eqn:Ep.
-      * injection H as <- <- <-. split; [exact (SPp_MONO _ _ H1)|discriminate].
+      * destruct (p_progress_err _ _ _ Ep) as [-> Hle].
+        destruct (IH _ _ _ _ _ H) as [M [E A]].
+        split; [exact (MONOp_trans _ _ _ (SPp_MONO _ _ H1) M)|split; [exact E|]].
+        intros p0 t0 [Hin|Hin]; [|exact (A _ _ Hin)].
+        injection Hin as <- <-. specialize (M pid). unfold stq in M at 1. rewrite Es in M.
+        cbn [pval] in M. lia.
       * apply (G n); [| |exact H].
         -- unfold stq. rewrite Es. cbn [pval]. rewrite (p_progress_max _ _ _ _ Ep). lia.
         -- rewrite (p_progress_max _ _ _ _ Ep). lia.
@@ -257,22 +274,20 @@ Proof. intros S A pid tgt Hin. rewrite S. exact (A _ _ Hin). Qed.
 
 Lemma update_pilot_states_QA c s ps s' ev e :
   update_pilot_states c s ps = (s', ev, e) ->
-  MONOp (s_pilots s) (s_pilots s') /\ QA (s_pilots s') ev /\ (e = None -> ABS ps (s_pilots s')).
+  MONOp (s_pilots s) (s_pilots s') /\ QA (s_pilots s') ev /\ e = None /\ ABS ps (s_pilots s').
 Proof.
   unfold update_pilot_states. destruct ps as [|p ps].
   - intro H. injection H as <- <- <-.
-    split; [apply SPp_MONO, SPp_refl|split; [apply QA_nil|]]. intros _ ? ? [].
+    split; [apply SPp_MONO, SPp_refl|split; [apply QA_nil|split; [reflexivity|]]]. intros ? ? [].
   - destruct (ups_loop (p :: ps) (s_pilots s) []) as [[pl upd] e1] eqn:E.
-    destruct (ups_loop_mono _ _ _ _ _ _ E) as [M A]. destruct e1 as [x|].
-    + intro H. injection H as <- <- <-. split; [exact M|split; [apply QA_nil|discriminate]].
-    + destruct upd as [|u0 upd].
-      * intro H. injection H as <- <- <-. split; [exact M|split; [apply QA_nil|]].
-        intros _. exact (A eq_refl).
-      * destruct (update_pilots c (with_pilots s pl) (u0 :: upd)) as [s2 ev2] eqn:E2.
-        intro H. injection H as <- <- <-. destruct (update_pilots_QA _ _ _ _ _ E2) as [S Q].
-        unfold SPs in S. cbn [with_pilots s_pilots] in S.
-        split; [exact (MONOp_trans _ _ _ M (SPp_MONO _ _ S))|split; [exact Q|]].
-        intros _. exact (ABS_SP _ _ _ S (A eq_refl)).
+    destruct (ups_loop_mono _ _ _ _ _ _ E) as [M [-> A]].
+    destruct upd as [|u0 upd].
+    + intro H. injection H as <- <- <-. split; [exact M|split; [apply QA_nil|split; [reflexivity|exact A]]].
+    + destruct (update_pilots c (with_pilots s pl) (u0 :: upd)) as [s2 ev2] eqn:E2.
+      intro H. injection H as <- <- <-. destruct (update_pilots_QA _ _ _ _ _ E2) as [S Q].
+      unfold SPs in S. cbn [with_pilots s_pilots] in S.
+      split; [exact (MONOp_trans _ _ _ M (SPp_MONO _ _ S))|split; [exact Q|split; [reflexivity|]]].
+      exact (ABS_SP _ _ _ S A).
 Qed.
 
 Lemma work_loop_QA pl : forall ts early e' bound tosched ev,
@@ -360,21 +375,19 @@ Proof.
     split; [exact (SPp_MONO _ _ S1)|split; [apply QA_nil|discriminate]].
   - fold (docs ps).
     destruct (update_pilot_states c (with_pilots s pl) (docs ps)) as [[s2 ev2] e2] eqn:E2.
-    destruct (update_pilot_states_QA _ _ _ _ _ _ E2) as [M2 [Q2 A2]].
+    destruct (update_pilot_states_QA _ _ _ _ _ _ E2) as [M2 [Q2 [-> A2]]].
     cbn [with_pilots s_pilots] in M2.
     assert (M02 : MONOp (s_pilots s) (s_pilots s2)) by exact (MONOp_trans _ _ _ (SPp_MONO _ _ S1) M2).
-    destruct e2 as [x|].
-    + intro H. injection H as <- <- <-. split; [exact M02|split; [exact Q2|discriminate]].
-    + match goal with |- context [flush_loop ?a ?b ?d] =>
-        destruct (flush_loop a b d) as [[e' b'] ev3] eqn:E3 end.
-      match goal with |- context [sub_add c ?a ?b] =>
-        destruct (sub_add c a b) as [s4 ev4] eqn:E4 end.
-      intro H. injection H as <- <- <-.
-      destruct (sub_add_QA _ _ _ _ _ E4) as [S4 Q4]. unfold SPs in S4. cbn [s_pilots] in S4.
-      split; [exact (MONOp_trans _ _ _ M02 (SPp_MONO _ _ S4))|split].
-      * apply QA_app; [exact (QA_SP _ _ _ S4 Q2)|].
-        apply QA_app; [exact (QA_SP _ _ _ S4 (flush_loop_QA _ _ _ _ _ _ E3))|exact Q4].
-      * intros _. exact (ABS_SP _ _ _ S4 (A2 eq_refl)).
+    match goal with |- context [flush_loop ?a ?b ?d] =>
+      destruct (flush_loop a b d) as [[e' b'] ev3] eqn:E3 end.
+    match goal with |- context [sub_add c ?a ?b] =>
+      destruct (sub_add c a b) as [s4 ev4] eqn:E4 end.
+    intro H. injection H as <- <- <-.
+    destruct (sub_add_QA _ _ _ _ _ E4) as [S4 Q4]. unfold SPs in S4. cbn [s_pilots] in S4.
+    split; [exact (MONOp_trans _ _ _ M02 (SPp_MONO _ _ S4))|split].
+    + apply QA_app; [exact (QA_SP _ _ _ S4 Q2)|].
+      apply QA_app; [exact (QA_SP _ _ _ S4 (flush_loop_QA _ _ _ _ _ _ E3))|exact Q4].
+    + intros _. exact (ABS_SP _ _ _ S4 A2).
 Qed.
 
 Lemma do_remove_QA s pids s' ev e :
@@ -407,7 +420,7 @@ Qed.
 Lemma step_QA c s o s' ev e :
   step c s o = (s', ev, e) ->
   MONOp (s_pilots s) (s_pilots s') /\ QA (s_pilots s') ev /\
-  (forall x, In x (reports_of false o e) -> snd x <= pval (stq (fst x) (s_pilots s'))).
+  (forall x, In x (reports_of o e) -> snd x <= pval (stq (fst x) (s_pilots s'))).
 Proof.
   destruct o as [ts|t ps|t pids|ps|ns|]; cbn [step].
   - destruct (work c s ts) as [s2 ev2] eqn:E. intro H. injection H as <- <- <-.
@@ -433,10 +446,10 @@ Proof.
     destruct t; cbn [reports_of]; try exact G.
     intro H. injection H as <- <- <-.
     split; [apply SPp_MONO, SPp_refl|split; [apply QA_nil|intros x []]].
-  - intro H. destruct (update_pilot_states_QA _ _ _ _ _ _ H) as [M [Q A]].
+  - intro H. destruct (update_pilot_states_QA _ _ _ _ _ _ H) as [M [Q [_ A]]].
     split; [exact M|split; [exact Q|]]. cbn [reports_of].
-    destruct e as [x|]; [intros ? []|]. intros x Hin. apply in_map_iff in Hin.
-    destruct Hin as [[pid tgt] [<- Hy]]. cbn [fst snd]. exact (A eq_refl _ _ Hy).
+    intros x Hin. apply in_map_iff in Hin.
+    destruct Hin as [[pid tgt] [<- Hy]]. cbn [fst snd]. exact (A _ _ Hy).
   - destruct (update_tasks c s (map (resolve (s_tk s)) ns)) as [[s2 ev2] e2] eqn:E.
     intro H. injection H as <- <- <-. destruct (update_tasks_QA _ _ _ _ _ _ E) as [S Q].
     split; [exact (SPp_MONO _ _ S)|split; [apply QA_cons_ntf; exact Q|intros x []]].
@@ -460,13 +473,13 @@ Definition AbsAcc (acc : list (Z * Z)) (pl : list (Z * pil)) : Prop :=
   forall x, In x acc -> snd x <= pval (stq (fst x) pl).
 
 Lemma el_fold_run c : c_kind c = BF -> forall ops s acc,
-  Inv s -> AbsAcc acc (s_pilots s) -> el_fold false c ops (run c s ops) acc = true.
+  Inv s -> AbsAcc acc (s_pilots s) -> el_fold c ops (run c s ops) acc = true.
 Proof.
   intro Hk. induction ops as [|o ops IH]; intros s acc Hi Ha; [reflexivity|].
   cbn [run]. destruct (step c s o) as [[s1 ev1] e1] eqn:E1. cbn [el_fold fst snd].
   destruct (step_QA _ _ _ _ _ _ E1) as [M [Q R]].
   destruct (step_good c _ _ _ _ _ Hi E1) as [Hi1 Hg].
-  assert (Ha1 : AbsAcc (acc ++ reports_of false o e1) (s_pilots s1)).
+  assert (Ha1 : AbsAcc (acc ++ reports_of o e1) (s_pilots s1)).
   { intros x Hin. apply in_app_or in Hin. destruct Hin as [Hin|Hin]; [|exact (R x Hin)].
     specialize (Ha x Hin). specialize (M (fst x)). lia. }
   apply andb_true_iff. split; [|exact (IH s1 _ Hi1 Ha1)].
@@ -483,46 +496,14 @@ Proof.
   apply Z.leb_le in Hw. lia.
 Qed.
 
-Lemma bf_eligible_partial c ops : ok_bf_eligible false c ops (run c st0 ops) = true.
+Lemma bf_eligible c ops : ok_bf_eligible c ops (run c st0 ops) = true.
 Proof.
   unfold ok_bf_eligible. destruct (c_kind c) eqn:Hk; [reflexivity|].
   apply (el_fold_run c Hk ops st0 []); [exact Inv0|intros x []].
 Qed.
 
-(* counting also the reports of a state notification batch which
-   _update_pilot_states left with ValueError, the statement is REFUTED on the
-   code as it is: the rest of that batch is dropped *)
-Lemma bf_eligible_refuted :
-  exists (c : cfg) (ops : list op), c_kind c = BF /\ ok_bf_eligible true c ops (run c st0 ops) = false.
+(* a pilot state notification never leaves the component with an exception any more *)
+Lemma pstates_never_raise c s ps s' ev e : step c s (OPStates ps) = (s', ev, e) -> e = None.
 Proof.
-  exists (mkCfg BF 200 4 4).
-  exists [OAdd TMine [(2, P_PMGR_ACTIVE, 4)]; OPStates [(1, P_DONE)];
-          OPStates [(1, P_CANCELED); (2, P_DONE)]; OSubmit [mkTask 1 None 1]].
-  split; [reflexivity|vm_compute; reflexivity].
-Qed.
-
-(* ... and holds in the strict form for histories in which no state notification batch raised *)
-Fixpoint pst_ok (ops : list op) (rs : list result) : bool :=
-  match ops, rs with
-  | o :: ro, r :: rr =>
-      (match o, snd (fst r) with OPStates _, Some _ => false | _, _ => true end) && pst_ok ro rr
-  | _, _ => true
-  end.
-
-Lemma el_fold_strict c : forall ops rs acc,
-  pst_ok ops rs = true -> el_fold true c ops rs acc = el_fold false c ops rs acc.
-Proof.
-  induction ops as [|o ops IH]; intros rs acc H; [reflexivity|].
-  destruct rs as [|r rs]; [reflexivity|]. cbn [pst_ok] in H. apply andb_true_iff in H.
-  destruct H as [H1 H2]. cbn [el_fold].
-  assert (E : reports_of true o (snd (fst r)) = reports_of false o (snd (fst r))).
-  { destruct o; try reflexivity. cbn [reports_of]. destruct (snd (fst r)); [discriminate|reflexivity]. }
-  rewrite E, (IH _ _ H2). reflexivity.
-Qed.
-
-Lemma bf_eligible_strict c ops :
-  pst_ok ops (run c st0 ops) = true -> ok_bf_eligible true c ops (run c st0 ops) = true.
-Proof.
-  intro H. pose proof (bf_eligible_partial c ops) as P. unfold ok_bf_eligible in *.
-  destruct (c_kind c); [reflexivity|]. rewrite (el_fold_strict c _ _ _ H). exact P.
+  cbn [step]. intro H. destruct (update_pilot_states_QA _ _ _ _ _ _ H) as [_ [_ [E _]]]. exact E.
 Qed.
